@@ -615,6 +615,183 @@ def run_opaq(cx):
                 break
 
 
+# ---- data nodes WITH metadata and value prefixes, opaque children below data nodes: the model of xml_print_meta / xml_print_term ----
+YANG4 = """module rtx4 { yang-version 1.1; namespace "urn:verif:rtx4"; prefix d; import rtx1 { prefix r1; } import rtx3 { prefix r3; }
+  import ietf-yang-metadata { prefix md; }
+  md:annotation who { type identityref { base r1:col; } }
+  md:annotation path { type instance-identifier { require-instance false; } }
+  md:annotation note { type string; }
+  identity pink { base r1:col; }
+  container box {
+    leaf color { type identityref { base r1:col; } }
+    leaf-list colors { type identityref { base r1:col; } }
+    leaf ref { type instance-identifier { require-instance false; } }
+    leaf dc { type identityref { base r1:col; } default "r1:red"; }
+    leaf ds { type string; default "x"; }
+    container in { leaf c2 { type identityref { base r1:col; } } leaf d2 { type identityref { base r1:col; } default "r3:green"; } }
+  }
+}
+"""
+NS4 = "urn:verif:rtx4"
+X4_IDS = [(NS1, "red"), (NS1, "blue"), (NS2, "red"), (NS3, "green"), (NS3, "red"), (NS4, "pink")]
+X4_PATHS = ["/%(d)s:box/%(d)s:in", "/%(d)s:box/%(d)s:colors[.='%(a)s:red']", "/%(a)s:top/%(a)s:l[%(a)s:k='x']/%(b)s:lv2", "/%(a)s:top/%(b)s:ac"]
+
+
+def gen_box(rng):
+    """an instance of rtx4:box: identityref leaves and leaf-lists with identities of four modules (two of which share the prefix
+    `a`), instance-identifiers through three modules, defaults whose value needs a prefix; on any node annotations of three modules:
+    strings, an int8, identityrefs, an instance-identifier - so that one start tag needs prefixes for the annotation names, for
+    prefixes inside annotation values and for prefixes inside the element value; the prefixes of the INPUT are unrelated to the
+    module prefixes libyang prints with"""
+    IN = {NS1: "i1", NS2: "i2", NS3: "i3", NS4: "i4"}
+    allns = "".join(' xmlns:%s="%s"' % (p, xesc(u.encode(), True).decode()) for u, p in IN.items())
+
+    clash = rng.random() < 0.3       # most instances stay clear of F49 / F301: identities of rtx1 / rtx2 (both prefix `a`) are rare
+
+    def ident():
+        u, n = rng.choice(X4_IDS if clash else X4_IDS[3:])
+        return "%s:%s" % (IN[u], n)
+
+    def metas(pr):
+        out, seen = [], set()
+        for _ in range(rng.choice([1, 1, 2, 3]) if rng.random() < pr else 0):
+            k = rng.choice(["hint", "num", "org", "tag", "who", "path", "note"] if clash else ["hint", "num", "who", "path", "note", "note"])
+            if k in seen:
+                continue
+            seen.add(k)
+            if k == "hint": out.append(' i1:hint="%s"' % xesc(rng.choice(STR), True).decode("utf-8", "replace"))
+            elif k == "num": out.append(' i1:num="%d"' % rng.choice([-128, 0, 7, 127]))
+            elif k == "org": out.append(' i1:org="%s"' % ident())
+            elif k == "tag": out.append(' i2:tag="%s"' % rng.choice(["t", "a b", ""]))
+            elif k == "who": out.append(' i4:who="%s"' % ident())
+            elif k == "path": out.append(' i4:path="%s"' % (rng.choice(X4_PATHS) % {"d": "i4", "a": "i1", "b": "i2"}))
+            else: out.append(' i4:note="%s"' % rng.choice(["n", "x:y", ""]))
+        return "".join(out)
+    k = []
+    if rng.random() < 0.7: k.append("<color%s>%s</color>" % (metas(0.6), ident()))
+    seen = []
+    for _ in range(rng.randrange(0, 4)):
+        v = ident()
+        if v not in seen:
+            seen.append(v)
+            k.append("<colors%s>%s</colors>" % (metas(0.4), v))
+    if rng.random() < 0.5: k.append("<ref%s>%s</ref>" % (metas(0.5), rng.choice(X4_PATHS) % {"d": "i4", "a": "i1", "b": "i2"}))
+    if rng.random() < 0.4: k.append("<dc%s>%s</dc>" % (metas(0.5), rng.choice(["i1:red", ident()])))
+    if rng.random() < 0.4: k.append("<ds%s>%s</ds>" % (metas(0.5), rng.choice(["x", "y"])))
+    if rng.random() < 0.6:
+        kk = []
+        if rng.random() < 0.7: kk.append("<c2%s>%s</c2>" % (metas(0.6), ident()))
+        if rng.random() < 0.4: kk.append("<d2%s>%s</d2>" % (metas(0.6), rng.choice(["i3:green", ident()])))
+        k.append("<in%s>%s</in>" % (metas(0.5), "".join(kk)))
+    return ('<box xmlns="%s"%s%s>%s</box>' % (NS4, allns, metas(0.5), "".join(k))).encode()
+
+
+X4_HAND = [
+    # F301: the module of the value's prefix is also the module of an annotation (or of an annotation value) of the element
+    (0, b'<box xmlns="urn:verif:rtx4"><color xmlns:a="urn:verif:rtx1" a:hint="h">a:red</color></box>'),
+    (0, b'<box xmlns="urn:verif:rtx4"><color xmlns:c="urn:verif:rtx3" xmlns:d="urn:verif:rtx4" d:who="c:green">c:red</color></box>'),
+    # F49: two modules with one prefix in one start tag
+    (0, b'<box xmlns="urn:verif:rtx4"><color xmlns:a="urn:verif:rtx1" xmlns:b="urn:verif:rtx2?a=1&amp;b=2" a:hint="h" b:tag="t">pink</color></box>'),
+    (0, b'<box xmlns="urn:verif:rtx4" xmlns:d="urn:verif:rtx4" d:path="/d:box/d:in" xmlns:a="urn:verif:rtx1" a:org="a:blue"><in><c2 xmlns:b="urn:verif:rtx2?a=1&amp;b=2" d:who="b:red">pink</c2></in></box>'),
+    # the same prefix for two modules at two levels: re-bound by REQUIRED calls, no defect
+    (0, b'<box xmlns="urn:verif:rtx4" xmlns:a="urn:verif:rtx1" a:hint="h"><in xmlns:b="urn:verif:rtx2?a=1&amp;b=2" b:tag="t"><c2 a:num="5">pink</c2></in></box>'),
+    (0, b'<box xmlns="urn:verif:rtx4"><ds>x</ds><in/></box>'),
+    # opaque children below data nodes
+    (1, b'<box xmlns="urn:verif:rtx4"><color>pink</color><zz xmlns:p="urn:N1" p:a="p:v"><y xmlns="urn:o2"/></zz></box>'),
+    (1, b'<box xmlns="urn:verif:rtx4" xmlns:a="urn:verif:rtx1" a:hint="h"><in><zz xmlns="urn:o1" xmlns:a="urn:N2" a:k="a:v"><y a:k="1"/></zz><c2 xmlns:a="urn:verif:rtx1">a:red</c2></in></box>'),
+]
+
+
+def run_xmeta(cx):
+    """the model of the data-node printer WITH metadata (LyModel/XmlTree/Data.lean: xml_print_node_open, xml_print_meta with the
+    with-defaults attribute, xml_print_term with the modules of the value's prefixes, opaque children) against libyang, byte for
+    byte, under each of the five with-defaults modes; the hypothesis dataOk of xml_document_faithful_meta evaluated on every view;
+    where it holds the independent reader applied to libyang's bytes must report dviewList of the view"""
+    rng = cx.sub_rng("xmeta")
+    n = cx.n(120, 2500)
+    searchdir = paths.REPO + "/tests/modules/yang"
+    head = "0 rt ctx %s %s %s %s %s" % (hexs(searchdir), hexs(YANG1), hexs(YANG2), hexs(YANG3), hexs(YANG4))
+    docs = []
+    for i in range(n):
+        r = rng.random()
+        if r < 0.55:
+            docs.append((0, gen_box(rng)))
+        elif r < 0.85:
+            docs.append((0, to_xml(gen_top(rng))))                   # the rtx family: metadata on every node kind
+        else:
+            # an opaque subtree below a data node (LYD_PARSE_OPAQ): an element of an unknown namespace inside the container
+            b = gen_box(rng)
+            o = gen_opaq_deep(rng) if rng.random() < 0.5 else gen_opaq(rng)
+            docs.append((1, b[:-len(b"</box>")] + o + b"</box>"))
+    docs += X4_HAND
+    lines = []
+    for k, (opq, d) in enumerate(docs):
+        if k % 100 == 0:
+            lines.append(head if k == 0 else "c%d rt ctx %s" % (k, head.split(" ", 3)[3]))
+        lines.append("%d rt xview xml %s %d" % (k + 1, hexs(d), opq))
+    ri = rtcomp.run_batched(cx, lines, "rtx", per_batch=1)
+    reqs, meta = [], []
+    WDN = ["explicit", "trim", "all", "all-tag", "impl-tag"]
+    for k, (opq, d) in enumerate(docs):
+        r = ri.get(str(k + 1), ["err", "NoReply"])
+        if r[0] != "ok" or len(r) < 11:
+            cx.count(("xmeta", d), True, "rtx:xmeta:not parsed (%s)" % " ".join(r[:2]))
+            if (opq, d) in X4_HAND or not opq:
+                cx.fail("rtx", "generated instance with metadata rejected", {"xml": d.decode("utf-8", "replace"), "reply": r[:2]})
+            continue
+        for w in range(5):
+            px, vw = r[1 + 2 * w], r[2 + 2 * w]
+            meta.append((d, w, px, vw, opq))
+            reqs.append("%d xmltree dcheck %s %s" % (len(reqs), vw, px))
+    rm = cx.run_model(reqs) if reqs else {}
+    nhyp = nread = nout = 0
+    again = []
+    for j, (d, w, px, vw, opq) in enumerate(meta):
+        r = rm.get(str(j), ["err", "NoReply"])
+        if r[:2] == ["err", "Unsupported"]:
+            nout += 1
+            cx.count(None, False, "rtx:xmeta-model:out-of-fragment (anydata / anyxml in the view)")
+            continue
+        if r[0] != "ok" or len(r) < 5:
+            cx.count(("xmeta", vw), True, "rtx:xmeta-model:%s" % " ".join(r[:2]))
+            cx.disagree("rtx-xmeta-model", reqs[j][:6000], ["ok", px[:3000]], r[:3])
+            continue
+        hyp, why, same, read = r[1:5]
+        v = unhex(vw)
+        feats = "%s%s%s%s" % ("M" if b"\nM " in b"\n" + v else "-", "V" if re.search(rb"^[TM] .* [1-9] [0-9a-f]+ [0-9a-f]+$", v, re.M) else "-",
+                              "W" if re.search(rb"^T \d+ \S+ \S+ [0-9a-f]", v, re.M) else "-", "O" if b"\nN " in b"\n" + v else "-")
+        cx.count(("xmeta", vw), True, "rtx:xmeta-model:wd=%s:print=%s:features(Meta,Valueprefix,Wdattr,Opaque)=%s" % (WDN[w], "same" if same == "1" else "DIFFERENT", feats))
+        cx.count(None, False, "rtx:xmeta-theorem:dataOk=%s%s:reader on libyang's bytes %s" % (
+            hyp, "" if why == "-" else "(" + why + ")", {"1": "= dviewList", "0": "DIFFERENT", "x": "NOT WELL-FORMED"}.get(read, read)))
+        if same != "1":
+            again.append((j, px, vw))
+        if hyp == "1":
+            nhyp += 1
+            if read == "1":
+                nread += 1
+            elif same == "1":
+                cx.disagree("rtx-xmeta-theorem", reqs[j][:6000], ["ok", "reader(libyang) = dviewList"], r[:5])
+        elif same == "1" and read != "1":
+            base = {"xml": d.decode("utf-8", "replace")[:3000], "wd": WDN[w], "xml_out": unhex(px).decode("utf-8", "replace")[:3000]}
+            if "F301" in why and "F49" not in why:
+                cx.fail("rtx", "XML output is not well-formed: the prefix of the module inside the element value is declared twice in the start tag", dict(base, triage="F301"))
+            elif "F49" in why:
+                cx.fail("rtx", "XML output: one prefix for two namespaces in one start tag", dict(base, triage="F49"))
+            else:
+                cx.fail("rtx", "XML output of a tree with metadata is not read back (hypothesis %s)" % why, base)
+    if again:
+        rq = ["%d xmltree dprint %s" % (i, vw) for i, (j, px, vw) in enumerate(again)]
+        r2 = cx.run_model(rq)
+        for i, (j, px, vw) in enumerate(again):
+            r = r2.get(str(i), ["err", "NoReply"])
+            cx.disagree("rtx-xmeta-model", rq[i][:6000], ["ok", px[:3000]], [r[0], (r[1] if len(r) > 1 else "")[:3000]])
+    cx.rule("xmeta: %d instances (rtx4: identityref / instance-identifier values and annotations of modules sharing prefixes; the rtx family; "
+            "opaque subtrees below data nodes) x 5 with-defaults modes = %d views printed by the Lean model of xml_print_node_open / xml_print_meta / "
+            "xml_print_term / xml_print_opaq = libyang's shrunk XML, byte for byte (%d more views outside the fragment: anydata)" % (len(docs), len(meta) - nout, nout))
+    cx.rule("xmeta-theorem: the hypothesis dataOk of xml_document_faithful_meta (the Lean definition for the variant of the source, run by the "
+            "driver) holds of %d of the %d views; for %d of these the independent reader applied to libyang's own bytes reports exactly dviewList" % (nhyp, len(meta) - nout, nread))
+
+
 def xml_struct(doc):
     st = rtcomp.expat_structure(doc, QNAME_ATTRS)
     if st is None:
